@@ -10,11 +10,12 @@ written precision (DESIGN.md 5.8)."""
 
 import hashlib
 import io
+import os
 import re
 
 import numpy as np
 
-from sim.node import Node, SimDisk, load_real_eop
+from sim.node import Node, SimDisk, load_real_eop, REPO
 from sim import world
 from sim.core import fhex
 
@@ -34,7 +35,7 @@ STATE_MEASURE = "(message type, encoding per hop, frame, scale, cov-frame class,
 PROBES = [
     "hop_compared", "kvn_xml_compared", "redump_compared", "config_default_used", "builtin_default_used", "creation_date_from_virtual_clock",
     "cov_in_local_frame", "cov_in_other_frame", "man_qsw", "man_tnw", "man_inertial", "man_continuous", "single_point_oem", "single_cov_oem", "multi_ephem_oem",
-    "omm_redumped", "tdm_two_paths", "user_defined_fields", "absent_name",
+    "omm_redumped", "tdm_two_paths", "user_defined_fields", "absent_name", "stored_example_message", "body_centred_frame",
 ]
 REAL_VS_STUB = "real: beyond.io.ccsds writers and readers (lxml), StateVector/Orbit/Ephem/Cov/maneuvers/MeasureSet, Tle; stub: the file objects handed to dump()/load() (simulated disk), the datetime class read by Date.now (virtual wall clock); model: canonical description of the object compared at the written precision"
 ASSUMPTIONS = [
@@ -49,6 +50,11 @@ INERTIAL = ["EME2000", "MOD", "TOD", "TEME", "GCRF", "CIRF", "G50"]
 ROTATING = ["ITRF", "PEF", "TIRF"]
 SCALES = ["UTC", "UTC", "TAI", "TT", "GPS", "UT1", "TDB"]
 ENC = ["arg:kvn", "arg:xml", "cfg:kvn", "cfg:xml", "default"]
+BODY = ["MarsBarycenter", "Moon", "Sun", "EarthBarycenter", "SolarSystemBarycenter"]  # frames created from the JPL kernel
+DATA_DIR = os.path.join(REPO, "tests", "io", "ccsds", "data")
+# opm_strange_units.* are the repository's negative fixtures (an unknown unit must be refused)
+STORED = sorted(f for f in os.listdir(DATA_DIR) if f.endswith((".kvn", ".xml")) and not f.startswith("opm_strange_units")) if os.path.isdir(DATA_DIR) else []
+JPL_FILES = [os.path.join(REPO, "tests", "data", "jpl", f) for f in ("de403_2000-2020.bsp", "pck00010.tpc", "gm_de431.tpc")]
 
 
 # ------------------------------------------------------------------ generate
@@ -85,16 +91,25 @@ def _mans(rng):
 
 
 def gen_plan(rng, tier, i):
-    kind = rng.choice(["opm", "opm", "opm", "oem", "oem", "omm", "tdm"])
+    kind = rng.choice(["opm", "opm", "opm", "oem", "oem", "omm", "tdm", "file"])
     spec = {"kind": kind, "scale": rng.choice(SCALES), "epoch": _epoch(rng)}
+    if kind == "file":
+        # a stored example message of the repository is the first thing on the disk: read, then written again along the chain
+        spec = {"kind": "file", "file": rng.choice(STORED), "jpl": True}
+        hops = []
+        for _ in range(rng.choice([1, 2, 2, 3])):
+            hops.append({"enc": rng.choice(ENC), "clock": [rng.randint(2000, 2035), rng.randint(1, 12), rng.randint(1, 28), rng.randint(0, 23), rng.randint(0, 59), rng.randint(0, 59), rng.randrange(1000000)], "both": rng.random() < 0.4})
+        return {"knobs": {"spec": spec, "real_eop": False}, "ops": hops}
     named = rng.random() < 0.8
     if named:
-        spec["name"] = rng.choice(["ISS (ZARYA)", "SAT-1", "X"])
+        spec["name"] = rng.choice(["ISS (ZARYA)", "SAT-1", "X", "GOES 9 [P]", "DEB [1998-067A] 2"])
         spec["cospar_id"] = rng.choice(["1998-067A", "2018-001A"])
     if kind == "opm":
+        spec.update(_placeholder=0)
+        spec.pop("_placeholder")
         spec.update(
             kep=_kep(rng),
-            frame=rng.choice(INERTIAL + INERTIAL + ROTATING),
+            frame=rng.choice(INERTIAL + INERTIAL + ROTATING + BODY),
             form=rng.choice(["cartesian", "cartesian", "keplerian", "spherical", "equinoctial"]),
             type=rng.choice(["sv", "orbit"]),
             cov=rng.choice([None, None, "same", "same", "other", "QSW", "TNW"]),
@@ -116,7 +131,7 @@ def gen_plan(rng, tier, i):
             ephs.append(
                 {
                     "kep": _kep(rng),
-                    "frame": rng.choice(INERTIAL + ROTATING),
+                    "frame": rng.choice(INERTIAL + ROTATING + BODY[:2]),
                     "form": rng.choice(["cartesian", "cartesian", "cartesian", "keplerian"]),
                     "npts": npts,
                     "step_s": float(rng.choice([60, 180, 300.5])),
@@ -143,6 +158,10 @@ def gen_plan(rng, tier, i):
         spec["npts"] = rng.choice([1, 2, 5, 20])
         spec["step_s"] = float(rng.choice([1, 5, 5.5]))
         spec["seed"] = rng.randrange(1 << 30)
+    uses_body = (kind == "opm" and spec["frame"] in BODY) or (kind == "oem" and any(e["frame"] in BODY for e in spec["ephems"]))
+    if uses_body:
+        spec["jpl"] = True
+        spec["epoch"][0] = rng.randint(51600, 58700)  # inside the kernel 2000-2020
     hops = []
     for _ in range(rng.choice([1, 1, 2, 2, 3])):
         hops.append({"enc": rng.choice(ENC), "clock": [rng.randint(2000, 2035), rng.randint(1, 12), rng.randint(1, 28), rng.randint(0, 23), rng.randint(0, 59), rng.randint(0, 59), rng.randrange(1000000)], "both": rng.random() < 0.4})
@@ -189,7 +208,9 @@ def build(node, spec, ctx):
         sv = node.StateVector(spec["kep"], date, "keplerian", "EME2000")
         if spec["frame"] != "EME2000":
             sv.frame = spec["frame"]
-        if spec["form"] != "keplerian":
+        if spec["frame"] in BODY:
+            sv.form = "cartesian"
+        elif spec["form"] != "keplerian":
             sv.form = "cartesian"
             f = spec["form"]
             if f != "cartesian":
@@ -226,7 +247,7 @@ def build(node, spec, ctx):
                 p = p.as_statevector() if hasattr(p, "as_statevector") else p
                 if es["frame"] != "EME2000":
                     p.frame = es["frame"]
-                p.form = es["form"]
+                p.form = es["form"] if es["frame"] not in BODY else "cartesian"
                 if not np.all(np.isfinite(np.asarray(p, dtype=float))):
                     p.form = "cartesian"
                 pts.append(p)
@@ -479,24 +500,39 @@ class World:
         if self.real_eop:
             load_real_eop(self.disk)
         self.n_nodes = 0
+        self.all_nodes = []
 
     def process(self, cfg_fmt=None, clock=None):
         """A new OS process: fresh registries, its own configuration and wall clock."""
         self.n_nodes += 1
         n = Node(f"p{self.n_nodes}", disk=self.disk, preload=("beyond.io.ccsds",))
+        self.all_nodes.append(n)
         with n:
             cfg = {"eop": {"missing_policy": "pass"}}
             if self.real_eop:
                 cfg["eop"]["folder"] = "/eop"
             if cfg_fmt:
                 cfg["io"] = {"ccsds_default_format": cfg_fmt}
+            if self.plan["knobs"]["spec"].get("jpl"):
+                cfg["env"] = {"jpl": {"files": list(JPL_FILES), "dynamic_frames": True}}
             n.config.update(cfg)
+            if self.plan["knobs"]["spec"].get("jpl"):
+                n.mod("beyond.env.jpl").create_frames()
         if clock:
             from datetime import datetime
 
             n.clock.set(datetime(*clock))
             self.ctx.clock_seen(datetime(*clock))
         return n
+
+    def close(self):
+        for n in self.all_nodes:
+            try:
+                bsp = n.modules.get("beyond.env.jpl")
+                for sp in (getattr(bsp.Bsp._instance, "_spk", []) or []) if bsp else []:
+                    sp.close()
+            except Exception:  # noqa
+                pass
 
     def write(self, node, obj, enc, path):
         """dump() to the simulated disk.  Returns (text, exception)."""
@@ -530,6 +566,9 @@ def classify(spec):
     """Static features of the object, used in fingerprints (so that a known finding is keyed by what fails)."""
     k = spec["kind"]
     f = {"msg": k}
+    if k == "file":
+        f["msg"] = spec["file"].split(".")[0].split("_")[0].split("-")[0]
+        f["file"] = spec["file"]
     if k == "opm":
         f["man_frames"] = ",".join(sorted({str(m["frame"]) for m in spec["mans"]})) if spec["mans"] else "-"
         f["cov"] = spec.get("cov") or "-"
@@ -548,6 +587,13 @@ def field_class(name):
 
 def run_plan(plan, ctx):
     w = World(plan, ctx)
+    try:
+        return _run_plan(plan, ctx, w)
+    finally:
+        w.close()
+
+
+def _run_plan(plan, ctx, w):
     spec = plan["knobs"]["spec"]
     kind = spec["kind"]
     feat = classify(spec)
@@ -555,9 +601,20 @@ def run_plan(plan, ctx):
     # ---- the first writer builds the object
     first = hops[0]
     node = w.process(cfg_fmt=first["enc"][4:] if first["enc"].startswith("cfg:") else None, clock=first["clock"])
-    with node:
-        obj = build(node, spec, ctx)
-        original = describe(obj, kind)
+    if kind == "file":
+        with open(os.path.join(DATA_DIR, spec["file"]), encoding="utf-8") as fp:
+            w.disk.write("/archive/" + spec["file"], fp.read())
+        with node:
+            obj, exc = w.read(node, "/archive/" + spec["file"])
+            if exc is not None:
+                ctx.violate("read-back", dict(feat, kind="stored_example_unreadable", exc=type(exc).__name__), f"the stored example {spec['file']} cannot be read: {type(exc).__name__}: {exc}")
+                return _finish(ctx, [kind], plan)
+            kind = kind_of(obj, node, "omm" if spec["file"].startswith("omm") else "opm")
+            original = describe(obj, kind)
+    else:
+        with node:
+            obj = build(node, spec, ctx)
+            original = describe(obj, kind)
     _probe_features(ctx, spec)
     current_desc = original
     sig = [kind]
@@ -681,6 +738,11 @@ def kind_of(obj, node, default):
 
 def _probe_features(ctx, spec):
     k = spec["kind"]
+    if k == "file":
+        ctx.probe("stored_example_message")
+        return
+    if spec.get("jpl"):
+        ctx.probe("body_centred_frame")
     if "name" not in spec:
         ctx.probe("absent_name")
     if spec.get("user"):
